@@ -16,6 +16,23 @@ fn hue_deg(b: f64, ap: f64) -> f64 {
     }
 }
 
+/// |h1' - h2'| in degrees (0 when either chroma' vanishes): the quantity whose value 180 is the standard's
+/// discontinuity.
+pub fn hue_gap(lab1: [f64; 3], lab2: [f64; 3]) -> f64 {
+    let c1 = (lab1[1] * lab1[1] + lab1[2] * lab1[2]).sqrt();
+    let c2 = (lab2[1] * lab2[1] + lab2[2] * lab2[2]).sqrt();
+    let cbar7 = ((c1 + c2) / 2.0).powi(7);
+    let g = 0.5 * (1.0 - (cbar7 / (cbar7 + 25f64.powi(7))).sqrt());
+    let (a1p, a2p) = ((1.0 + g) * lab1[1], (1.0 + g) * lab2[1]);
+    let c1p = (a1p * a1p + lab1[2] * lab1[2]).sqrt();
+    let c2p = (a2p * a2p + lab2[2] * lab2[2]).sqrt();
+    if c1p * c2p == 0.0 {
+        0.0
+    } else {
+        (hue_deg(lab1[2], a1p) - hue_deg(lab2[2], a2p)).abs()
+    }
+}
+
 pub fn ciede2000(lab1: [f64; 3], lab2: [f64; 3]) -> f64 {
     let (l1, a1, b1) = (lab1[0], lab1[1], lab1[2]);
     let (l2, a2, b2) = (lab2[0], lab2[1], lab2[2]);
